@@ -7,6 +7,7 @@ statement promises identical results.
 """
 import io
 import logging
+import math
 
 from .. import env
 from .. import gen, build, mcase, monitors
@@ -65,9 +66,42 @@ def gen_merge_case(rng):
     return case
 
 
+def gen_triangle_case(rng):
+    """two one-way approaches (a detour p1->a->b whose start is far from the first observation, and the straight road
+    p2->a2->b) reach the edge b->c in the second non-emitting layer; c->a closes a triangle through the detour's node a, and
+    the second observation lies on c->a.  The candidate via the detour fails the probability cut-off at b->c."""
+    u = rng.choice([1.0, 1.0, 0.5, 4.0])
+    j = lambda v: v + rng.uniform(-0.3, 0.3)
+    pts = {"p2": (-10.0, 0.0), "a2": (0.0, 0.0), "b": (10.0, 0.0), "c": (20.0, 0.0), "p1": (-10.0, j(1.0)), "a": (j(0.0), j(8.0))}
+    edges = [("p2", "a2"), ("a2", "b"), ("p1", "a"), ("a", "b"), ("b", "c"), ("c", "a")]
+    if rng.random() < 0.3:
+        pts["e"] = (30.0, j(0.0))
+        edges.append(("c", "e"))
+    names = list(pts)
+    ids = rng.sample(range(1, 60), len(names))
+    lab = dict(zip(names, ids if rng.random() < 0.6 else ["N%d" % v for v in ids]))
+    rng.shuffle(edges)
+    nodes = [[lab[k], [v[0] * u, v[1] * u]] for k, v in pts.items()]
+    rng.shuffle(nodes)
+    m = {"nodes": nodes, "edges": [[lab[a], lab[b]] for a, b in edges], "latlon": False, "kind": "triangle"}
+    tr = [[rng.uniform(-7, -3) * u, rng.uniform(-0.2, 0.2) * u], [rng.uniform(12, 16) * u, rng.uniform(1.8, 3.0) * u]]
+    if rng.random() < 0.3:
+        tr.append([rng.uniform(4, 8) * u, rng.uniform(5.0, 6.5) * u])
+    cfg = gen.gen_cfg(rng, families=("simple", "simple", "distance", "newsonkrumm"), ne=True, width=False, cut=False)
+    cfg["obs_noise"] = 1.0 * u
+    cfg["obs_noise_ne"] = rng.choice([3.0, 3.0, 2.0, 5.0]) * u
+    cfg["max_dist_init"] = 30.0 * u
+    cfg["max_dist"] = None
+    cfg["min_prob_norm"] = math.exp(-rng.choice([7.4, 7.0, 7.8, 6.5, 8.5]))
+    case = {"map": m, "trace": tr, "cfg": cfg, "merge": True, "triangle": True}
+    if rng.random() < 0.4:
+        mcase.tighten(case, rng, what=("min_prob_norm",))
+    return case
+
+
 def gen_case(rng, i, tier):
     if i % 10 == 7:
-        case = gen_merge_case(rng)
+        case = gen_triangle_case(rng) if rng.random() < 0.5 else gen_merge_case(rng)
         case["ops"] = gen.gen_history(rng, len(case["trace"]), case["cfg"]["width"], allow_cwd=False, max_ops=2)
         if rng.random() < 0.6:
             case["ops"] = [{"op": "match", "k": len(case["trace"]), "unique": rng.random() < 0.5}]
